@@ -32,7 +32,9 @@ class ExceptionContext(StatusContext):
 
     @property
     def context_id(self) -> str:
-        return f"exception_{self.exception_type}"
+        # one occurrence per failed invocation (as StatusContext / ResultContext do), otherwise
+        # failures of different invocations with the same exception type collapse into one
+        return f"exception_{self.invocation_id}_{self.exception_type}"
 
     def _to_json(self, app: "Pynenc") -> dict[str, Any]:
         """
